@@ -506,5 +506,4 @@ func main() {
 	emitMutFacts(repo, out)
 
 	// T3 (C11): sources of run-to-run nondeterminism (detfacts.go)
-	emitDetFacts(repo, out)
 }
